@@ -311,13 +311,53 @@ Section Legacy.
     | LPI t d => let '(p, st1) := lg_parent_tag_end st in (lg_lift p (lg_pi chk t d), st1)
     end.
 
-  Fixpoint lg_events (chk : bool) (es : list lg_event) (st : list bool) : res (list N) :=
+  (* ---- the raw marker m_nextIsRaw -------------------------------------------------------------
+     processingInstruction(s_piTarget, s_piData) writes nothing and sets the flag; the next characters()
+     call with length != 0, or the next cdata() call (any length), clears it and writes its text through
+     charactersRaw(): writeParentTagEnd, then the units through accumContent, no escaping, no section *)
+  Fixpoint lg_list_eqb (a b : list N) : bool :=
+    match a, b with
+    | [], [] => true
+    | x :: a', y :: b' => (x =? y) && lg_list_eqb a' b'
+    | _, _ => false
+    end.
+
+  Definition lg_is_marker (e : lg_event) : bool :=
+    match e with
+    | LPI t d => lg_list_eqb t lg_raw_target && lg_list_eqb d lg_raw_data
+    | _ => false
+    end.
+
+  (* the events that look at the flag (and clear it) *)
+  Definition lg_consumes (e : lg_event) : bool :=
+    match e with
+    | LText (_ :: _) => true
+    | LCdata _ => true
+    | _ => false
+    end.
+
+  Definition lg_event_text (e : lg_event) : list N :=
+    match e with LText s => s | LCdata s => s | _ => [] end.
+
+  (* charactersRaw *)
+  Definition lg_raw_out (e : lg_event) (st : list bool) : res (list N) * list bool :=
+    let '(p, st1) := lg_parent_tag_end st in (Ok (p ++ lg_puts (lg_event_text e)), st1).
+
+  (* one event with the flag: output, element stack, flag afterwards *)
+  Definition lg_event_step (chk : bool) (e : lg_event) (st : list bool) (raw : bool)
+    : res (list N) * list bool * bool :=
+    if lg_is_marker e then (Ok [], st, true)
+    else if lg_consumes e then
+      (if raw then lg_raw_out e st else lg_event_out chk e st, false)
+    else (lg_event_out chk e st, raw).
+
+  Fixpoint lg_events (chk : bool) (es : list lg_event) (st : list bool) (raw : bool) : res (list N) :=
     match es with
     | [] => Ok []
     | e :: r =>
-        match lg_event_out chk e st with
-        | (Ok o, st1) => lg_lift o (lg_events chk r st1)
-        | (x, _) => x
+        match lg_event_step chk e st raw with
+        | (Ok o, st1, raw1) => lg_lift o (lg_events chk r st1 raw1)
+        | (x, _, _) => x
         end
     end.
 
@@ -328,7 +368,7 @@ Section Legacy.
     lg_name [34; 63; 62].
 
   Definition lg_document (chk : bool) (version encoding : list N) (es : list lg_event) : res (list N) :=
-    lg_lift (lg_header version encoding) (lg_events chk es []).
+    lg_lift (lg_header version encoding) (lg_events chk es [] false).
 End Legacy.
 
 (* the configuration of this source tree *)
